@@ -19,6 +19,7 @@ type Tree struct {
 	FA  []int    `json:"fa,omitempty"` // ids of the fields' addresses (addressable structs only)
 	To  *Tree    `json:"to,omitempty"`
 	Nil bool     `json:"nil,omitempty"`
+	Cap int      `json:"cap,omitempty"` // capacity of a non-nil slice
 }
 
 // String renders the tree compactly.
@@ -38,7 +39,7 @@ func (t *Tree) Equal(o *Tree, loose bool) bool {
 	if t.K == "iface" && o.K == "iface" && t.Nil && o.Nil {
 		return true // a nil interface has lost its static type when boxed
 	}
-	if t.K != o.K || t.T != o.T || t.V != o.V || t.Nil != o.Nil {
+	if t.K != o.K || t.T != o.T || t.V != o.V || t.Nil != o.Nil || t.Cap != o.Cap {
 		return false
 	}
 	if !loose && t.ID != o.ID {
